@@ -154,7 +154,8 @@ class Verdict:
             self.cov["samples"].append(obj)
 
     def drift(self, what):
-        if len(self.cov["conformance_drift"]) < 20:
+        self.cov["conformance_drift_total"] = self.cov.get("conformance_drift_total", 0) + 1
+        if len(self.cov["conformance_drift"]) < int(os.environ.get("VERIF_DRIFT_CAP", "20")):
             self.cov["conformance_drift"].append(what)
 
     # -- verdicts
